@@ -1,6 +1,7 @@
 import HailVerif.Proofs.ExprTyping
 import HailVerif.Proofs.PyImpute
 import HailVerif.Proofs.TableType
+import HailVerif.Proofs.MatrixType
 /-!
 # C36 — Front-end types agree with the IR it emits
 
@@ -110,7 +111,38 @@ theorem join_keeps_left_key {l r t : TType} (h : TableType.join l r = some t) :
 
 theorem orderBy_clears_key (t : TType) : (orderBy t).key = [] ∧ (orderBy t).row = t.row := orderBy_key t
 
+/-! ## MatrixTable API: keys -/
+
+/-- `key_cols_by(*fields)`, also with NO field, sets the column key to exactly `fields`; `cols()` and `entries()` are keyed
+accordingly (`MatrixMapCols`: `newKey.getOrElse(child.colKey)` — an empty new key is a key) -/
+theorem keyColsBy_sets_key {m m' : MatrixType.MType} {fields : List String} (h : MatrixType.keyColsBy m fields = some m') :
+    m'.colKey = fields ∧ m'.rowKey = m.rowKey ∧ m'.col = m.col ∧ (MatrixType.colsTable m').key = fields ∧
+      (MatrixType.entriesTable m').key = m.rowKey ++ fields := MatrixType.keyColsBy_spec h
+
+theorem keyRowsBy_sets_key {m m' : MatrixType.MType} {fields : List String} (h : MatrixType.keyRowsBy m fields = some m') :
+    m'.rowKey = fields ∧ m'.row = m.row ∧ m'.colKey = m.colKey ∧ (MatrixType.rowsTable m').key = fields :=
+  MatrixType.keyRowsBy_spec h
+
+theorem matrix_annotate_preserves_keys {m m' : MatrixType.MType} {a : MatrixType.Axis} {named : FieldList}
+    (h : MatrixType.annotate m a named = some m') : m'.colKey = m.colKey ∧ m'.rowKey = m.rowKey := MatrixType.annotate_keys h
+
+theorem matrix_select_preserves_keys {m m' : MatrixType.MType} {a : MatrixType.Axis} {keep : List String} {named : FieldList}
+    (h : MatrixType.select m a keep named = some m') : m'.colKey = m.colKey ∧ m'.rowKey = m.rowKey := MatrixType.select_keys h
+
+theorem unionCols_keeps_left {l r m : MatrixType.MType} (h : MatrixType.unionCols l r = some m) :
+    m.rowKey = l.rowKey ∧ m.colKey = l.colKey ∧ m.col = l.col ∧ m.entry = l.entry ∧ m.globals = l.globals :=
+  MatrixType.unionCols_keeps h
+
 /-! ## non-vacuity -/
+
+/-- `key_cols_by()`: the entries table is keyed by the row key only -/
+example : (MatrixType.keyColsBy MatrixType.range []).map (fun m => (MatrixType.entriesTable m).key) = some ["row_idx"] := by decide
+
+/-- `union_cols` after `key_rows_by('a')`: the key field comes first in the row type (the engine's rule; repaired in /repo a90fb6872) -/
+example : (MatrixType.unionCols ⟨[], [("col_idx", .int32)], ["col_idx"], [("row_idx", .int32), ("a", .int32)], ["a"], []⟩
+      ⟨[], [("col_idx", .int32)], ["col_idx"], [("row_idx", .int32), ("q", .str)], ["row_idx"], []⟩).map (·.row)
+    = some [("a", .int32), ("row_idx", .int32), ("q", .str)] := by decide
+
 
 /-- `hl.int32(3) + 4.5` as emitted: `(ApplyBinaryPrimOp + (Apply toFloat64 () Float64 (I32 3)) (F64 4.5))` -/
 example : inferType [] none (.bin .add (.ascribe (.cast (.i32 3) .float64) .float64) (.f64 4)) = some .float64 := by decide
